@@ -31,6 +31,7 @@
 -/
 import ICal.Lemmas.Codec
 namespace ICal.C03
+open ICal.Codec
 
 /-! ## DATE -/
 
@@ -226,6 +227,9 @@ theorem frequency_rt (s : Str) (h : s ∈ frequencies) : freqFrom (freqTo s) = .
   simp only [hu]
   simp [h]
 
+theorem frequency_grammar (s : Str) (h : s ∈ frequencies) : rfcFreq (freqTo s) = some s :=
+  rfcFreq_freqTo s h
+
 theorem decode_grammar_frequency (t v : Str) (h : rfcFreq t = some v) : freqFrom t = .ok v := by
   unfold rfcFreq at h
   split at h
@@ -247,6 +251,11 @@ theorem month_rt (n : Nat) (leap : Bool) : vMonthFrom (vMonthTo n leap) = .ok ((
     rw [vMonthNew_digits _ (isDigitStr_natToStr n), ofDigits_natToStr]
   · simp only [if_true]
     rw [vMonthNew_L _ (isDigitStr_natToStr n), ofDigits_natToStr]
+
+/-- months 1-12, with or without the leap suffix, are written in the `monthnum` grammar -/
+theorem month_grammar (n : Nat) (leap : Bool) (h1 : 1 ≤ n) (h2 : n ≤ 12) :
+    rfcMonth (vMonthTo n leap) = some ((n : Int), leap) :=
+  rfcMonth_vMonthTo n leap h1 h2
 
 theorem decode_grammar_month (t : Str) (v : Int × Bool) (h : rfcMonth t = some v) : vMonthFrom t = .ok v := by
   obtain ⟨s, hs, hv, hform⟩ := rfcMonth_inv h
@@ -316,19 +325,53 @@ theorem ddd_classes_disjoint (t : Str) :
     (timeText t = true → durText t = false ∧ periodText t = false) ∧
     (durText t = true → periodText t = false) := by
   unfold dateText dateTimeText timeText durText periodText
-  have hD : ∀ v, rfcDate t = some v → _ := fun v h => sig_date h
-  have hT : ∀ v, rfcTime t = some v → _ := fun v h => sig_time h
-  have hDT : ∀ v, rfcDateTime t = some v → _ := fun v h => sig_datetime h
-  have hU : ∀ v, rfcDuration t = some v → _ := fun v h => sig_duration h
-  have hP : ∀ v, rfcPeriod t = some v → _ := fun v h => sig_period h
-  cases h1 : rfcDate t <;> cases h2 : rfcDateTime t <;> cases h3 : rfcTime t <;>
-    cases h4 : rfcDuration t <;> cases h5 : rfcPeriod t <;> simp
-  all_goals
-    try have s1 := hD _ h1
-    try have s2 := hDT _ h2
-    try have s3 := hT _ h3
-    try have s4 := hU _ h4
-    try have s5 := hP _ h5
-  all_goals sorry
+  refine ⟨?_, ?_, ?_, ?_⟩
+  · intro h
+    obtain ⟨a, ha⟩ := Option.isSome_iff_exists.1 h
+    exact ⟨isSome_false_of fun b hb => disj_date_datetime ha hb, isSome_false_of fun b hb => disj_date_time ha hb,
+      isSome_false_of fun b hb => disj_date_dur ha hb, isSome_false_of fun b hb => disj_date_period ha hb⟩
+  · intro h
+    obtain ⟨a, ha⟩ := Option.isSome_iff_exists.1 h
+    exact ⟨isSome_false_of fun b hb => disj_datetime_time ha hb, isSome_false_of fun b hb => disj_datetime_dur ha hb,
+      isSome_false_of fun b hb => disj_datetime_period ha hb⟩
+  · intro h
+    obtain ⟨a, ha⟩ := Option.isSome_iff_exists.1 h
+    exact ⟨isSome_false_of fun b hb => disj_time_dur ha hb, isSome_false_of fun b hb => disj_time_period ha hb⟩
+  · intro h
+    obtain ⟨a, ha⟩ := Option.isSome_iff_exists.1 h
+    exact isSome_false_of fun b hb => disj_dur_period ha hb
+
+/-! ## Non-vacuity: the hypotheses are satisfiable, on boundary values and on the quirks -/
+
+example : (⟨2024, 2, 29⟩ : PDate).valid = true := by decide
+example : (⟨1900, 2, 29⟩ : PDate).valid = false := by decide
+example : (⟨1, 1, 1⟩ : PDate).valid = true ∧ (⟨9999, 12, 31⟩ : PDate).valid = true := by decide
+example : vDateTo ⟨1, 1, 1⟩ = "00010101".toList := by decide
+example : vDateFrom "20240229".toList = .ok ⟨2024, 2, 29⟩ := by decide
+example : vDateFrom "20230229".toList = .error .valueError := by decide
+example : rfcDateTime "99991231T235959Z".toList = some ⟨⟨9999, 12, 31⟩, 23, 59, 59, true⟩ := by decide
+example : (⟨⟨2000, 2, 29⟩, 23, 59, 59, true⟩ : PDateTime).valid = true := by decide
+example : (⟨23, 59, 59, false⟩ : PTime).valid = true := by decide
+example : durTo (-93784) = "-P1DT2H3M4S".toList := by decide
+example : durTo 3604 = "PT1H0M4S".toList := by decide
+example : durTo 0 = "P0D".toList := by decide
+example : rfcDuration "PT1H30S".toList = none := by decide        -- not RFC grammar ...
+example : durFrom "PT1H30S".toList = some 3630 := by decide        -- ... but accepted (not a violation)
+example : durFrom "P1D\n".toList = some 86400 := by decide         -- `$` matches before a final LF
+example : rfcDuration "+P2W".toList = some 1209600 := by decide
+example : offTo (-3600) = "-0100".toList ∧ offTo 0 = "+0000".toList ∧ offTo 19801 = "+053001".toList := by decide
+example : offFrom "-0000".toList = .ok 0 ∧ rfcUtcOffset "-0000".toList = none := by decide
+example : offFrom "+2400".toList = .error .valueError := by decide
+example : (-86399 : Int).natAbs < 86400 := by decide
+example : intFrom " +1_000 ".toList = .ok 1000 := by decide        -- `int()` quirks are modelled
+example : rfcWeekdayNum "-53SU".toList = some (0, some (-53)) := by decide
+example : vWeekdayFrom "-1su".toList = .ok ⟨"-1SU".toList, "SU".toList, some (-1)⟩ := by decide
+example : "YEARLY".toList ∈ frequencies := by decide
+example : vMonthFrom "5L".toList = .ok (5, true) ∧ vMonthFrom "".toList = .error .indexError := by decide
+example : rfcPeriod "19970101T180000Z/PT5H30M".toList =
+    some (.period (.dt ⟨⟨1997, 1, 1⟩, 18, 0, 0, true⟩) (.dur 19800)) := by decide
+example : dddFrom "19970101T180000Z/19970102T070000Z".toList =
+    .ok (.period (.dt ⟨⟨1997, 1, 1⟩, 18, 0, 0, true⟩) (.dt ⟨⟨1997, 1, 2⟩, 7, 0, 0, true⟩)) := by decide
+example : dateText "20240229".toList = true ∧ timeText "235959Z".toList = true ∧ durText "-PT0S".toList = true := by decide
 
 end ICal.C03
